@@ -135,8 +135,97 @@ func Mutate(kind string, a []int64, b []byte) [][]byte {
 			out = append(out, append([]byte(nil), b[:k]...))
 		}
 		return out
+	case "enumt5":
+		vs, _ := Type5Variants(b)
+		return vs
 	}
 	return nil
+}
+
+// Type5Variants builds the structure-aware family for a type-5 response
+// (varint length || n x 32-byte elements || 64-byte proof): every single omission, every
+// single duplication and every transposition of two distinct elements (all permutations'
+// generators), each with the length prefix fixed up and left as it was.
+func Type5Variants(b []byte) (out [][]byte, labels []string) {
+	if len(b) < 1 {
+		return nil, nil
+	}
+	pl := 1 << (b[0] >> 6)
+	if len(b) < pl {
+		return nil, nil
+	}
+	var l uint64
+	for i := 0; i < pl; i++ {
+		c := b[i]
+		if i == 0 {
+			c &= 0x3f
+		}
+		l = l<<8 | uint64(c)
+	}
+	if uint64(len(b)-pl) < l || l%32 != 0 {
+		return nil, nil
+	}
+	n := int(l / 32)
+	elems := make([][]byte, n)
+	for i := range elems {
+		elems[i] = b[pl+32*i : pl+32*i+32]
+	}
+	proof := b[pl+int(l):]
+	build := func(es [][]byte, fix bool) []byte {
+		var body []byte
+		for _, e := range es {
+			body = append(body, e...)
+		}
+		var o []byte
+		if fix {
+			o = appendVarint(nil, uint64(len(body)))
+		} else {
+			o = append(o, b[:pl]...)
+		}
+		o = append(o, body...)
+		return append(o, proof...)
+	}
+	for i := 0; i < n; i++ {
+		es := append(append([][]byte{}, elems[:i]...), elems[i+1:]...)
+		for _, fix := range []bool{true, false} {
+			out = append(out, build(es, fix))
+			labels = append(labels, fmt.Sprintf("t5drop@%d/fix=%v", i, fix))
+		}
+	}
+	for i := 0; i < n; i++ {
+		es := append(append(append([][]byte{}, elems[:i+1]...), elems[i]), elems[i+1:]...)
+		for _, fix := range []bool{true, false} {
+			out = append(out, build(es, fix))
+			labels = append(labels, fmt.Sprintf("t5dup@%d/fix=%v", i, fix))
+		}
+	}
+	cnt := 0
+	for i := 0; i < n && cnt < 64; i++ {
+		for j := i + 1; j < n && cnt < 64; j++ {
+			if string(elems[i]) == string(elems[j]) {
+				continue // a reordering of equal elements is not a reordering
+			}
+			es := append([][]byte{}, elems...)
+			es[i], es[j] = es[j], es[i]
+			out = append(out, build(es, true))
+			labels = append(labels, fmt.Sprintf("t5swap@%d,%d", i, j))
+			cnt++
+		}
+	}
+	return out, labels
+}
+
+// appendVarint is the harness's own RFC 9000 §16 encoder (independent of quicwire).
+func appendVarint(b []byte, v uint64) []byte {
+	switch {
+	case v < 1<<6:
+		return append(b, byte(v))
+	case v < 1<<14:
+		return append(b, 0x40|byte(v>>8), byte(v))
+	case v < 1<<30:
+		return append(b, 0x80|byte(v>>24), byte(v>>16), byte(v>>8), byte(v))
+	}
+	return append(b, 0xc0|byte(v>>56), byte(v>>48), byte(v>>40), byte(v>>32), byte(v>>24), byte(v>>16), byte(v>>8), byte(v))
 }
 
 // VariantLabel describes variant i of an enumerating fault.
@@ -155,6 +244,16 @@ func VariantLabel(kind string, a []int64, i int) string {
 		return fmt.Sprintf("trunc@%d", i)
 	}
 	return kind
+}
+
+func variantLabelFor(kind string, a []int64, i int, orig []byte) string {
+	if kind == "enumt5" {
+		_, ls := Type5Variants(orig)
+		if i < len(ls) {
+			return ls[i]
+		}
+	}
+	return VariantLabel(kind, a, i)
 }
 
 func (a *PlanAdversary) Intercept(m *simnet.Msg) []Sending {
@@ -234,7 +333,7 @@ func (a *PlanAdversary) Intercept(m *simnet.Msg) []Sending {
 				continue
 			}
 			a.W.Res.FaultFired(kind, inflight)
-			enum := kind == "enumflip" || kind == "enumtrunc"
+			enum := kind == "enumflip" || kind == "enumtrunc" || kind == "enumt5"
 			if !enum {
 				m.Orig = m.Payload
 				m.Payload = vs[0]
@@ -246,7 +345,7 @@ func (a *PlanAdversary) Intercept(m *simnet.Msg) []Sending {
 				c.Orig = m.Payload
 				c.Payload = v
 				c.Variant = i + 1
-				c.Faults = append(c.Faults, VariantLabel(kind, p, i))
+				c.Faults = append(c.Faults, variantLabelFor(kind, p, i, m.Payload))
 				out = append(out, Sending{c, int64(i+1) * 10})
 			}
 		}
